@@ -762,6 +762,9 @@ impl AutosarModel {
             filemap.insert(filename, new_file.downgrade());
         }
 
+        // the comment of the root element is also part of the model
+        copy.root_element().set_comment(self.root_element().comment());
+
         // by inserting copies of the sub elements of <AUTOSAR>, we automatically
         // get up-to-date identifiables and reference_origins
         for element in self.root_element().sub_elements() {
